@@ -38,7 +38,7 @@ def pda_desc(draw, max_states=3, max_stack=3, max_trans=7, state_pools=None, sta
     nf = draw(st.sampled_from([1, 1, 2, 0, 1]))
     finals = draw(st.lists(st.sampled_from(states), min_size=min(nf, ns), max_size=min(nf, ns), unique_by=repr))
     return {"start": states[0], "z0": stack[0], "finals": finals, "trans": trans,
-            "how": draw(st.sampled_from(["mut", "ctor"])), "spool": sp, "kpool": kp, "ypool": yp}
+            "how": draw(st.sampled_from(["mut", "ctor", "ctor_tf"])), "spool": sp, "kpool": kp, "ypool": yp}
 
 
 FOREIGN = "zz"
